@@ -36,8 +36,8 @@ MAXIT = 1500
 
 def plan(tier):
     if tier == "quick":
-        return dict(shards=3, examples=36, time_budget_s=900, min_nontrivial=8, shrink_cap_s=120)
-    return dict(shards=3, examples=540, time_budget_s=3500, min_nontrivial=100)
+        return dict(shards=3, examples=36, time_budget_s=900, min_nontrivial=5, shrink_cap_s=120)
+    return dict(shards=3, examples=540, time_budget_s=3500, min_nontrivial=40)
 
 
 def teardown_shard():
